@@ -89,9 +89,13 @@ theorem C04_refines_list_list [BEq α] [Inhabited α] (ops : List (Op α)) (l : 
   · rw [← h2]; exact Lst.iterFwd_eq r.1 h3
   · rw [← h2]; exact Lst.iterBwd_eq r.1 h3
 
+/-- out of range for a List raises and leaves the List as it was — except `assign` from a source without `Len`
+    (`filter(…)`), which raises `ClassError` *after* `List_Clear` (second conjunct; the state half belongs to C12) -/
 theorem C04_list_out_of_range [BEq α] [Inhabited α] (l : Lst α) (hinv : l.Inv) (op : Op α)
-    (h : Spec.lstStep l.items op = none) : (l.step op).1 = l ∧ ∃ e, (l.step op).2 = .raised e :=
-  Lst.step_out_of_range l hinv op h
+    (h : Spec.lstStep l.items op = none) :
+    (op.iterAssign = false → (l.step op).1 = l ∧ ∃ e, (l.step op).2 = .raised e) ∧
+    (∀ ys, op = .assign ys false → l.step op = (l.clear, .raised .classError)) :=
+  ⟨fun hop => Lst.step_out_of_range l hinv op hop h, fun ys he => by subst he; rfl⟩
 
 /-- a new List (and a copy) satisfies the counter invariant -/
 theorem C04_list_new_inv (xs : List α) : ((Lst.empty : Lst α).concat xs).1.Inv ∧ (⟨xs, xs.length⟩ : Lst α).copy.Inv := by
@@ -116,8 +120,11 @@ theorem C04_refines_list_tuple [BEq α] (ops : List (Op α)) (t : Tup α) (l' : 
   · show r.1.items.length = l'.length; rw [h2]
   · intro i; rw [← h2]; exact Tup.get_eq r.1 i
 
-theorem C04_tuple_out_of_range [BEq α] (t : Tup α) (op : Op α) (h : Spec.tupStep t.items op = none) :
-    (t.step op).1 = t ∧ ∃ e, (t.step op).2 = .raised e := Tup.step_out_of_range t op h
+/-- out of range for a Tuple raises and leaves the Tuple as it was — except `assign` from an iterator-only source to a
+    non-empty Tuple, which does not raise at all (`C04_tuple_assign_iter_refuted` below) -/
+theorem C04_tuple_out_of_range [BEq α] (t : Tup α) (op : Op α) (hop : op.iterAssign = false)
+    (h : Spec.tupStep t.items op = none) :
+    (t.step op).1 = t ∧ ∃ e, (t.step op).2 = .raised e := Tup.step_out_of_range t op hop h
 
 /-- The full statement for Tuple iteration and `mem` (which is implemented with `foreach`): in *every* Tuple state the
     iterator protocol, given enough steps, yields the stored sequence.  It is FALSE for the code as it is (known
@@ -233,21 +240,30 @@ theorem C04_sort_int (a : Arr Int) :
   simp only [decide_eq_false_iff_not] at h
   omega
 
-/-! ## aliased arguments (known findings KF-C04-self-assign, KF-C04-self-concat)
+/-! ## aliased arguments (assign(x, x): fixed; known findings KF-C04-self-concat, KF-C04-push-own-element)
 
   The refinement theorems above take the argument of `concat` / `assign` as a *value* (the abstract contents of the other
   container): they cover every call whose `obj` is not `self`.  The full statements for `obj == self` are below; they are
-  false for the code as it is, with concrete witnesses, and `C04_self_alias_partial` states the part that does hold. -/
+  false for `concat` in the code as it is, with concrete witnesses, and `C04_self_alias_partial` states the part that does hold. -/
 
-/-- full statement: `assign(x, x)` leaves `x` as it was -/
-def C04_self_assign_statement : Prop :=
-  (∀ a : Arr Nat, a.assignSelf.1.items = a.items) ∧ (∀ l : Lst Nat, l.Inv → l.assignSelf.1.items = l.items)
+/-- full statement: `assign(x, x)` leaves `x` as it was, for any implementation `fa` / `fl` of the aliased call -/
+def C04_self_assign_statement (fa : Arr Nat → Arr Nat × Res Unit) (fl : Lst Nat → Lst Nat × Res Unit) : Prop :=
+  (∀ a : Arr Nat, (fa a).1.items = a.items) ∧ (∀ l : Lst Nat, l.Inv → (fl l).1.items = l.items)
 
-/-- **refuted**: `Array_Assign` / `List_Assign` clear the target before they read the source: `assign(a, a)` empties `[1]` -/
-theorem C04_self_assign_refuted : ¬ C04_self_assign_statement := by
+/-- **assign(x, x) changes nothing** (the code as it is since fix a3140e4: `if (self is obj) return;`), all three types,
+    every element type: contents, capacity, counter and outcome -/
+theorem C04_self_assign (a : Arr α) (l : Lst α) (t : Tup α) :
+    a.assignSelf = (a, .ok ()) ∧ l.assignSelf = (l, .ok ()) ∧ t.assignSelf = (t, .ok ()) := ⟨rfl, rfl, rfl⟩
+
+theorem C04_self_assign_holds : C04_self_assign_statement Arr.assignSelf Lst.assignSelf :=
+  ⟨fun _ => rfl, fun _ _ => rfl⟩
+
+/-- **the code before fix a3140e4 refuted the statement**: `Array_Assign` / `List_Assign` cleared the target before they
+    read the source: `assign(a, a)` emptied `[1]` (regression witness corpus/seq_fixed_self_assign.ops) -/
+theorem C04_self_assign_old_refuted : ¬ C04_self_assign_statement Arr.assignSelfOld Lst.assignSelfOld := by
   intro h
   have := h.1 ⟨[1], 1⟩
-  simp [Arr.assignSelf, Arr.assign, Arr.clear] at this
+  simp [Arr.assignSelfOld, Arr.assign, Arr.clear] at this
 
 /-- full statement: `concat(x, x)` completes, stays inside the object and doubles the sequence -/
 def C04_self_concat_statement : Prop :=
